@@ -3,28 +3,34 @@ from vdriver import Job
 ID = "C13"
 LEVEL = "other"
 MAIN = "c13"
-MODULES = ["geom", "stubs", "c13"]
+MODULES = ["geom", "pos", "stubs", "c13"]
 ACCESS = None
 DUMP = []
 PARALLEL = 4
 
 META = {
     "functions_encoded": ["engine::uci::options::{HashOption, ThreadsOption, MoveOverheadOption}::{DEF, set}", "str::parse::<usize> as compiled",
-                          "engine::transposition_table::calculate_number_of_entries::<SearchTranspositionTableData>"],
-    "stubs": ["alloc::fmt::format -> empty string (error messages of the setters are not the subject)"],
-    "bounds": ["option text: canonical decimal of 1..4 digits (covers every advertised range: max 1024)", "unwind 6"],
-    "outside": ["'afterwards the engine still answers isready and completes a search with a legal move': needs Uci::execute (threads) and a whole search",
+                          "engine::transposition_table::calculate_number_of_entries::<SearchTranspositionTableData>",
+                          "engine::uci::Uci::execute (UciCommand::SetOption branch: name dispatch, setter, try_lock, TranspositionTable::resize)"],
+    "stubs": ["alloc::fmt::format -> empty string (error messages of the setters are not the subject)",
+              "setoption_cmd harnesses: std::intrinsics::catch_unwind -> runs the closure (Kani 0.68 cannot compile this intrinsic; only the go branch's JoinHandle drop glue reaches it)"],
+    "bounds": ["option text: canonical decimal of 1..4 digits (covers every advertised range: max 1024)", "unwind 6 (16 where the option name comparison needs it)",
+               "command level: engine state = {no search yet, an earlier go whose handle is still in Uci::control}, persistent state unlocked (no search RUNNING), "
+               "table of the smallest size; Threads and Move Overhead: every advertised value; Hash: only the value 0 (any other value runs Vec::resize over value*65536 slots)"],
+    "outside": ["'afterwards the engine ... completes a search with a legal move': needs a whole search on another thread; setoption while a search is running (try_lock fails)",
                 "the allocation performed by resize for sizes > 0 (Vec::resize of mb*65536 entries)",
                 "TimeStrategy::new for every advertised overhead is decided under C14"],
     "assumptions": ["ranges are read from the real UciOption::DEF constants, so a changed range changes the query"],
     "trusted_base": ["kani 0.68.0", "cbmc 6.11.0", "cadical"],
-    "explanation": "Kernel-level claim: acceptance of every advertised value and usability (>= 1 slot, no overflow) of every advertised hash size.",
+    "explanation": "Kernel-level claim (acceptance of every advertised value; usability of every advertised hash size) plus the real setoption command handler before / between searches.",
 }
 MANIFEST = {
     "text": "Partial (kernel-level) claim, hence 'other': with the ranges read from the real option declarations, the solver shows that the "
             "decimal text of EVERY advertised Hash / Threads / Move Overhead value is accepted and stored, and that every advertised hash size "
-            "yields a table of at least one slot (the slot index is key % len) without overflow. 'Completes a search afterwards' needs the "
-            "threaded UCI loop and a whole search and is NOT claimed.",
+            "yields a table of at least one slot (the slot index is key % len) without overflow; and that the real command handler "
+            "Uci::execute(setoption ...) returns Ok (an Err ends the engine's main loop), stores the value and leaves a usable table, before the first "
+            "search and between searches (handle of an earlier go still present), for every advertised Threads / Move Overhead value and for Hash 0. "
+            "'Completes a search afterwards' needs a whole search on another thread and is NOT claimed.",
     "note": "Canonical decimal text of up to 4 digits; table operations on non-empty tables are C19's inductive step.",
     "design_ref": "DESIGN.md s.4 C13",
 }
@@ -36,6 +42,9 @@ def jobs(tier, seed):
         Job("c13_set_hash", "HashOption::set accepts the text of every advertised value", timeout=1200, min_covers=2),
         Job("c13_set_threads", "ThreadsOption::set accepts the text of every advertised value", timeout=1200, min_covers=2),
         Job("c13_set_move_overhead", "MoveOverheadOption::set accepts the text of every advertised value", timeout=1200, min_covers=2),
+        Job("c13_setoption_cmd_hash", "Uci::execute(setoption name Hash value 0) before a search and between searches: Ok, stored, table usable", timeout=1500, mem_gb=12, min_covers=1),
+        Job("c13_setoption_cmd_threads", "Uci::execute(setoption name Threads value v) for every advertised v, before and between searches", timeout=1500, mem_gb=12, min_covers=1),
+        Job("c13_setoption_cmd_move_overhead", "Uci::execute(setoption name Move Overhead value v) for every advertised v, before and between searches", timeout=1500, mem_gb=12, min_covers=2),
     ]
 
 
